@@ -112,7 +112,7 @@ theorem next_ign (L : Lex τ) (ts : List τ) (cs : List Char) (t : τ) (tok r : 
     exact nextF_mono L ts _ _ r (by omega) (by omega)
 
 /-! ## counting: a text is at least as long as the number of its non-empty pieces -/
-theorem length_le_flatMap {α : Type} (g : α → List Char) (l : List α) (h : ∀ x ∈ l, 1 ≤ (g x).length) :
+theorem length_le_flatMap {α β : Type} (g : α → List β) (l : List α) (h : ∀ x ∈ l, 1 ≤ (g x).length) :
     l.length ≤ (l.flatMap g).length := by
   induction l with
   | nil => simp
@@ -122,7 +122,7 @@ theorem length_le_flatMap {α : Type} (g : α → List Char) (l : List α) (h : 
     simp only [List.flatMap_cons, List.length_append, List.length_cons]
     omega
 
-theorem length_le_of_mem_flatMap {α : Type} (g : α → List Char) (l : List α) (x : α) (hx : x ∈ l) :
+theorem length_le_of_mem_flatMap {α β : Type} (g : α → List β) (l : List α) (x : α) (hx : x ∈ l) :
     (g x).length ≤ (l.flatMap g).length := by
   induction l with
   | nil => cases hx
